@@ -219,7 +219,7 @@ PROPS['C07'] = {
 FILTER_FUNCS = ['filter_bboxes', 'calculate_bbox_area_volume', 'check_bbox', 'convert_bbox_to_dicaugment',
                 'convert_bbox_from_dicaugment', 'normalize_bbox', 'denormalize_bbox']
 PROPS['C04'] = {
-    'requires': FILTER_FUNCS, 'corr': corr_fn('C04', FILTER_FUNCS, 60, 2500), 'search': 'C04',
+    'requires': FILTER_FUNCS, 'corr': corr_multi(corr_fn('C04', FILTER_FUNCS, 60, 2500), corr_framework(120, 2000)), 'search': 'C04',
     'trusted_base': ['np.clip / np.isclose modelled as clip / isclose in lib/PyNum.v',
                      'NumPy float division by zero (inf/nan) is outside the model: theorems assume boxes with positive '
                      'extent before clipping (what every transform produces from a valid box)'],
